@@ -219,22 +219,26 @@ def falsify(ctx, deep=False):
     rng = ctx["rng"]
     n = 40 if deep else 8
     viols, worst = [], {}
+    cases = []
     for k in range(n):
         p = ic.gen_params(rng, small=not (deep and k % 4 == 0))
-        p["data_seed"] = rng.getrandbits(30); p["shift"] = rng.uniform(-50, 50); p["family"] = (k % 2 == 0)
-        if k == 1:
-            p.update({"kind": "fried", "nx": 128, "extra": 4, "ps": 0.1, "r0": 0.15, "L0": 30.0, "family": False})
-        if k == 2:
-            p.update({"kind": "fried", "nx": 6, "extra": 2, "ps": 1, "r0": 1.0, "L0": 30.0})       # integer pixel scale
-        if k == 3:
-            p.update({"kind": "vk", "nx": 6, "extra": 2, "ps": 2, "r0": 1.5, "L0": 25.0})
-        if k == 5 or (deep and k == 6):
-            # screens taller than 64 rows over histories longer than 64 steps (buffers, windows and chunked updates show here)
-            p.update({"kind": "vk", "nx": rng.choice([70, 80, 97]), "extra": rng.choice([1, 2]), "ps": 0.1, "r0": 0.2, "L0": 25.0, "family": False,
-                      "long_history": rng.randint(70, 140)} if k == 5 else
-                     {"kind": "fried", "nx": rng.choice([40, 65]), "extra": 1, "ps": 0.1, "r0": 0.2, "L0": 25.0, "family": False, "long_history": rng.randint(70, 100)})
-        if k == 4:
-            p.update({"kind": "fried", "nx": 5, "extra": 2, "ps": 3.14159e-5, "r0": 9.3e-5, "L0": 6.1e-3, "family": False})
+        p["family"] = (k % 2 == 0)
+        cases.append(p)
+    # inputs every run includes besides the random ones (none replaces a random draw)
+    cases.append({"kind": "fried", "nx": 128, "extra": 4, "ps": 0.1, "r0": 0.15, "L0": 30.0, "family": False})
+    cases.append({"kind": "fried", "nx": 6, "extra": 2, "ps": 1, "r0": 1.0, "L0": 30.0, "family": True})       # integer pixel scale
+    cases.append({"kind": "vk", "nx": 6, "extra": 2, "ps": 2, "r0": 1.5, "L0": 25.0, "family": False})
+    cases.append({"kind": "fried", "nx": 5, "extra": 2, "ps": 3.14159e-5, "r0": 9.3e-5, "L0": 6.1e-3, "family": False})
+    # screens taller than 64 rows over histories longer than 64 steps (buffers, windows and chunked updates show here)
+    cases.append({"kind": "vk", "nx": rng.choice([70, 80, 97]), "extra": rng.choice([1, 2]), "ps": 0.1, "r0": 0.2, "L0": 25.0, "family": False, "long_history": rng.randint(70, 140)})
+    # a Fried screen over a history longer than its working length (the reference-pixel term at every step)
+    cases.append({"kind": "fried", "nx": rng.choice([5, 9]), "extra": rng.choice([1, 2]), "ps": 0.1, "r0": 0.2, "L0": 25.0, "family": False, "long_history": rng.randint(40, 80)})
+    if deep:
+        cases.append({"kind": "fried", "nx": rng.choice([40, 65]), "extra": 1, "ps": 0.1, "r0": 0.2, "L0": 25.0, "family": False, "long_history": rng.randint(70, 100)})
+    # the screen is wider than the outer scale (separations beyond L0 inside the stencil)
+    cases.append({"kind": rng.choice(["vk", "fried"]), "nx": rng.choice([9, 17]), "extra": 2, "ps": rng.uniform(0.5, 1.5), "r0": 0.3, "L0": rng.uniform(2.0, 6.0), "family": False})
+    for p in cases:
+        p["data_seed"] = rng.getrandbits(30); p["shift"] = rng.uniform(-50, 50)
         try:
             res = property_checks(p)
         except Exception as ex:
@@ -248,7 +252,7 @@ def falsify(ctx, deep=False):
     for v in viols:
         if v["clause"] not in seen:
             seen.add(v["clause"]); keep.append(v)
-    return keep, {"evaluations": n, "max_error_over_tolerance_per_clause": worst}
+    return keep, {"evaluations": len(cases), "max_error_over_tolerance_per_clause": worst}
 
 
 def replay(payload):
